@@ -7,10 +7,11 @@ CONSTANTS
     Wraps = {"bare"}
     LeafSel = "core"
     FullValues = FALSE
-    Kinds = {"s", "i", "b", "l", "ps", "pi", "ns", "sd", "nid", "nbd", "psd", "pfd"}
+    Kinds = {"s", "i", "b", "l", "ps", "pi", "ns", "sd", "nid", "nbd", "psd", "pfd", "rq", "rqn"}
     MaxFields = 3
     Vias = {"direct", "pipe", "http"}
     Witness = FALSE
+    ReqPayloads = {"garbage", "empty", "null", "ipc_equal", "ipc_equal_g", "ipc_retyped", "ipc_nobatch"}
 VIEW View
-PROPERTIES BindsIffEqual RefusedIsTypeError ValuesAndDefaults
+PROPERTIES BindsIffEqual RefusedIsTypeError ValuesAndDefaults RequestColumnIsOrdinary
 CHECK_DEADLOCK FALSE
